@@ -5,6 +5,7 @@ import (
 	"errors"
 	"fmt"
 	"math/rand"
+	"os"
 	"runtime"
 	"sort"
 	"strings"
@@ -405,6 +406,9 @@ func (d *director) doOp(op Op) {
 		if op.Live {
 			kind = "live"
 		}
+		if !fakecmd.AliveProc(op.P) {
+			return // probes only run while the command is alive
+		}
 		delivered := r.VerifInjectProbe(op.P, kind, op.Ok, fails, "scripted probe failure")
 		if delivered && kind == "ready" {
 			if st, err := r.GetProcessState(op.P); err == nil {
@@ -460,7 +464,24 @@ func Run(sc *Scenario) *Result {
 	d.runner = runner
 
 	scale := sc.Cfg.BackoffScaleUs
-	app.VerifTraceFn = func(ev string, proc string, inst int64, kv []any) { tracer.Emit(ev, proc, inst, kv...) }
+	// events of instances that were not spawned in this scenario (goroutines orphaned by an earlier,
+	// unclean scenario) are dropped: every real instance emits Spawn before anything else
+	var spawnedMu sync.Mutex
+	spawned := map[int64]bool{}
+	app.VerifTraceFn = func(ev string, proc string, inst int64, kv []any) {
+		if inst != 0 {
+			spawnedMu.Lock()
+			if ev == "Spawn" {
+				spawned[inst] = true
+			}
+			ok := spawned[inst]
+			spawnedMu.Unlock()
+			if !ok {
+				return
+			}
+		}
+		tracer.Emit(ev, proc, inst, kv...)
+	}
 	app.VerifGateFn = d.gate
 	app.VerifCommanderFn = func(info app.VerifLaunchInfo) command.Commander {
 		argv := append([]string{info.Executable}, info.Args...)
@@ -573,60 +594,75 @@ func Run(sc *Scenario) *Result {
 	}
 	close(obsStop)
 	obsWG.Wait()
-	if !returned {
-		// final shutdown by the harness so that every scenario ends
-		shutDone := make(chan struct{})
-		go func() {
-			d.doOp(Op{Kind: "shutdown"})
-			close(shutDone)
-		}()
-		maxTO := 0
-		for _, ps := range sc.Cfg.Procs {
-			if ps.ShutdownTimeout > maxTO {
-				maxTO = ps.ShutdownTimeout
-			}
-		}
-		limit := time.Duration(maxTO)*time.Second*2 + 1500*time.Millisecond
+	active := func() bool { return tracer.Count("Unreg") < tracer.Count("Spawn") || fakecmd.Alive() > 0 }
+	waitOps := func(limit time.Duration) bool {
+		opsDone := make(chan struct{})
+		go func() { d.opsWG.Wait(); close(opsDone) }()
 		select {
-		case <-shutDone:
-			select {
-			case <-runDone:
-				returned = true
-			case <-time.After(600 * time.Millisecond):
-			}
+		case <-opsDone:
+			return true
 		case <-time.After(limit):
-		}
-		if !returned {
-			if stuck == "" {
-				stuck = "after_shutdown"
-			}
-			tracer.Emit("Stuck", "", 0, "phase", "after_shutdown", "alive", fakecmd.Alive(), "blocked", d.blocked())
+			return false
 		}
 	}
-	// let in-flight API calls and the goroutine epilogues (Unreg after WaitGroup.Done) finish
-	opsDone := make(chan struct{})
-	go func() { d.opsWG.Wait(); close(opsDone) }()
-	select {
-	case <-opsDone:
-	case <-time.After(time.Duration(maxKillTO(sc))*time.Second + 1500*time.Millisecond):
-		res.Dirty = true
-	}
-	deadline := time.Now().Add(300 * time.Millisecond)
-	for time.Now().Before(deadline) {
-		if tracer.Count("Unreg") >= tracer.Count("Spawn") {
+	killTO := time.Duration(maxKillTO(sc)) * time.Second
+	// final shutdown(s) by the harness so that every scenario ends with nothing running, also when
+	// API calls made after Run() returned have started new instances
+	for round := 0; round < 3; round++ {
+		if returned && !active() && d.inflight.Load() == 0 {
 			break
 		}
-		time.Sleep(time.Millisecond)
+		if !returned || active() {
+			shutDone := make(chan struct{})
+			go func() {
+				d.doOp(Op{Kind: "shutdown"})
+				close(shutDone)
+			}()
+			select {
+			case <-shutDone:
+				if !returned {
+					select {
+					case <-runDone:
+						returned = true
+					case <-time.After(600 * time.Millisecond):
+					}
+				}
+			case <-time.After(killTO*2 + 1500*time.Millisecond):
+			}
+			if !returned {
+				if stuck == "" {
+					stuck = "after_shutdown"
+				}
+				tracer.Emit("Stuck", "", 0, "phase", "after_shutdown", "alive", fakecmd.Alive(), "blocked", d.blocked())
+				if os.Getenv("VERIF_DUMP") != "" {
+					buf := make([]byte, 1<<20)
+					n := runtime.Stack(buf, true)
+					os.Stderr.Write(buf[:n])
+				}
+				break
+			}
+		}
+		// let in-flight API calls and the goroutine epilogues (Unreg after WaitGroup.Done) finish
+		if !waitOps(killTO + 1500*time.Millisecond) {
+			res.Dirty = true
+			break
+		}
+		deadline := time.Now().Add(300 * time.Millisecond)
+		for time.Now().Before(deadline) && tracer.Count("Unreg") < tracer.Count("Spawn") {
+			time.Sleep(time.Millisecond)
+		}
+	}
+	if active() || d.inflight.Load() != 0 {
+		res.Dirty = true
 	}
 	if d.panicked.Load() {
 		res.Dirty = true
 	}
-	atRest := returned && stuck == "" && fakecmd.Alive() == 0 && !res.Dirty
+	atRest := returned && stuck == "" && !res.Dirty
 	tracer.Emit("End", "", 0, "atRest", atRest)
 	d.stopping.Store(true)
 	res.Lines = tracer.End()
-	if !returned {
-		res.Dirty = true
+	if res.Dirty {
 		fakecmd.KillAll()
 	}
 	res.Stuck = stuck
